@@ -320,6 +320,7 @@ class _Chooser:
         return True
 
 
+CALL_SITES: t.Set[tuple] = set()  # distinct call sites (function, line, column) the enumerator evaluated in this process
 _BASELINE: t.Optional[t.FrozenSet[str]] = None
 
 
@@ -1527,6 +1528,8 @@ class Engine:
 
     # events ---------------------------------------------------------------------
     def _event(self, kind, node, fi, depth, s: _State) -> Event:
+        if kind == "call":
+            CALL_SITES.add((fi.qual if fi is not None else "?", getattr(node, "lineno", 0), getattr(node, "col_offset", 0)))
         e = Event(kind, node, fi, depth)
         e.seq = next(self._seq)
         e.frame = tuple(self._active)
